@@ -115,39 +115,30 @@ Qed.
 
 Theorem epoch_empty : parse_epoch [] = None.
 Proof. reflexivity. Qed.
+(* an epoch is a run of digits: ANY other character, anywhere - a sign in front included - rejects *)
+Theorem epoch_nonnumeric x c : In c x -> is_digit c = false -> parse_epoch x = None.
+Proof.
+  intros Hin Hc. unfold parse_epoch. destruct x as [|c0 r]; [reflexivity|].
+  now rewrite (dv_nondigit (c0 :: r) 0%N c Hin Hc).
+Qed.
 Theorem epoch_nonnumeric_tail c0 r c : In c r -> is_digit c = false -> parse_epoch (c0 :: r) = None.
-Proof.
-  intros Hin Hc. unfold parse_epoch.
-  destruct (ceq c0 plus); [|destruct (ceq c0 minus)].
-  - destruct r; [reflexivity|]. now rewrite (dv_nondigit _ 0%N c Hin Hc).
-  - destruct r; [reflexivity|]. now rewrite (dv_nondigit _ 0%N c Hin Hc).
-  - now rewrite (dv_nondigit (c0 :: r) 0%N c (or_intror Hin) Hc).
-Qed.
-Theorem epoch_nonnumeric_head c0 r : is_digit c0 = false -> c0 <> plus -> c0 <> minus -> parse_epoch (c0 :: r) = None.
-Proof.
-  intros Hc Hp Hm. unfold parse_epoch. destruct (ceq_spec c0 plus); [contradiction|]. destruct (ceq_spec c0 minus); [contradiction|].
-  now rewrite (dv_nondigit (c0 :: r) 0%N c0 (or_introl eq_refl) Hc).
-Qed.
+Proof. intros Hin Hc. apply (epoch_nonnumeric (c0 :: r) c); [now right|exact Hc]. Qed.
+Theorem epoch_nonnumeric_head c0 r : is_digit c0 = false -> parse_epoch (c0 :: r) = None.
+Proof. intros Hc. apply (epoch_nonnumeric (c0 :: r) c0); [now left|exact Hc]. Qed.
 Theorem epoch_sign_only c0 : parse_epoch [c0] = None \/ is_digit c0 = true.
+Proof. destruct (is_digit c0) eqn:D; [now right|left]. now apply epoch_nonnumeric_head. Qed.
+(* no sign is an epoch: "-1:", "-0:" and "+1:" alike *)
+Theorem epoch_signed ds : parse_epoch (minus :: ds) = None /\ parse_epoch (plus :: ds) = None.
+Proof. split; apply epoch_nonnumeric_head; reflexivity. Qed.
+Theorem epoch_oversized c r n : dv 0 (c :: r) = Some n -> (max_epoch < n)%N -> parse_epoch (c :: r) = None.
 Proof.
-  destruct (is_digit c0) eqn:D; [now right|left]. unfold parse_epoch.
-  destruct (ceq c0 plus); [reflexivity|]. destruct (ceq c0 minus); [reflexivity|]. cbn [dv]. now rewrite D.
+  intros Hd Hn. unfold parse_epoch.
+  assert (Gt : (n <=? max_epoch)%N = false) by (apply N.leb_gt; exact Hn). now rewrite Hd, Gt.
 Qed.
-Theorem epoch_negative ds n : dv 0 ds = Some n -> n <> 0%N -> parse_epoch (minus :: ds) = None.
+(* and every run of digits within the field's range IS an epoch, with exactly its value *)
+Theorem epoch_accepted c r n : dv 0 (c :: r) = Some n -> (n <= max_epoch)%N -> parse_epoch (c :: r) = Some n.
 Proof.
-  intros Hd Hn. unfold parse_epoch. destruct (ceq_spec minus plus) as [X|_]; [discriminate X|].
-  destruct (ceq_spec minus minus); [|congruence]. destruct ds; [reflexivity|]. rewrite Hd.
-  destruct (N.eqb_spec n 0); [contradiction|reflexivity].
-Qed.
-Theorem epoch_oversized c r n : is_digit c = true -> dv 0 (c :: r) = Some n -> (max_int64 < n)%N ->
-  parse_epoch (c :: r) = None /\ parse_epoch (plus :: c :: r) = None.
-Proof.
-  intros Dc Hd Hn. unfold parse_epoch.
-  assert (Gt : (n <=? max_int64)%N = false) by (apply N.leb_gt; exact Hn).
-  split.
-  - destruct (ceq_spec c plus) as [->|_]; [discriminate Dc|]. destruct (ceq_spec c minus) as [->|_]; [discriminate Dc|].
-    now rewrite Hd, Gt.
-  - destruct (ceq_spec plus plus); [|congruence]. now rewrite Hd, Gt.
+  intros Hd Hn. unfold parse_epoch. assert (Le : (n <=? max_epoch)%N = true) by (apply N.leb_le; exact Hn). now rewrite Hd, Le.
 Qed.
 
 (* ---- C03, rejections, assembled: t is the text between the surrounding blanks ---- *)
@@ -186,8 +177,7 @@ Proof.
       { destruct (is_digit c) eqn:D; [|reflexivity]. pose proof (digit_facts c) as Fc. rewrite D in Fc. cbn [negb orb] in Fc.
         repeat (apply andb_true_iff in Fc as [Fc ?]). congruence. }
       destruct w as [|c0 r0]; [contradiction|]. destruct Hin as [->|Hin].
-      * assert (Np : c <> plus) by (intros ->; discriminate Hc). assert (Nm : c <> minus) by (intros ->; discriminate Hc).
-        rewrite (epoch_nonnumeric_head c r0 Dg Np Nm) in Pe. discriminate.
+      * rewrite (epoch_nonnumeric_head c r0 Dg) in Pe. discriminate.
       * rewrite (epoch_nonnumeric_tail c0 r0 c Hin Dg) in Pe. discriminate.
     + discriminate Hc.
     + now apply (rest_outside_alphabet n rest c).
